@@ -664,6 +664,37 @@ def _run(ctx):
     r3.check(okw, ctx.construct(wa), 'wait-after does not record the end '
              'state before delaying and complete the task with it later',
              ctx.loc(wa))
+    # everything the completion job carries about the outcome was read
+    # before the task was put into DELAYED (set_state overwrites both)
+    if jobs and ss:
+        fa = U.kwarg(jobs[0], 'func_args')
+        stale = []
+        if isinstance(fa, ast.Dict):
+            for k, v in zip(fa.keys, fa.values):
+                if not (isinstance(k, ast.Constant) and
+                        k.value in ('state', 'state_info')):
+                    continue
+                srcs = [v]
+                if isinstance(v, ast.Name):
+                    srcs = [d for d in U.reaching_defs(
+                        cfg, v.id)[cfg.node_of(jobs[0]).id]
+                        if not isinstance(d, str)]
+                    okd = bool(srcs) and all(
+                        cfg.dominates(cfg.node_of(d), ss[0][0]) and
+                        cfg.node_of(d) is not ss[0][0] for d in srcs)
+                else:
+                    okd = not any(isinstance(x, ast.Call)
+                                  for x in ast.walk(v))
+                want = 'task.get_%s()' % k.value
+                if not okd or not all(norm(d) == want for d in srcs):
+                    stale.append(k.value)
+        r3.check(not stale, ctx.construct(wa, extra='outcome read before '
+                                          'the delay'),
+                 'the completion job of wait-after takes the task\'s %s '
+                 'after the task was set RUNNING_DELAYED: the job completes '
+                 'the task with the "delayed" message / state instead of its '
+                 'outcome (a timeout or error message is lost)'
+                 % ' and '.join(stale), ctx.loc(wa))
     wb = prog.func(POL + '.WaitBeforePolicy.before_task_start')
     jobs = [n for n in own_nodes(wb.node) if isinstance(n, ast.Call) and
             U.call_name(n) == 'SchedulerJob']
@@ -684,6 +715,18 @@ def _run(ctx):
             lambda c: U.call_name(c) == 'update' and
             dotted(c.func.value) == 'policy_ctx' and c.args and
             norm(c.args[0]) == "{'skip': True}")]
+        if dly and mark and not sch:
+            # the job exists but is not handed to the scheduler here: the
+            # row that moves the task on must be written in the transaction
+            # that makes the task DELAYED (a crash in between loses the task)
+            r3.fail(ctx.construct(fpol, extra='DELAYED => continuation '
+                                  'scheduled'),
+                    'the task is set RUNNING_DELAYED but its continuation '
+                    'job is not scheduled by a direct scheduler call in the '
+                    'same transaction (deferred to a post-commit operation '
+                    'or dropped): a crash after the commit leaves the task '
+                    'DELAYED for ever', ctx.loc(fpol))
+            continue
         if not dly or not sch or not mark:
             raise AnalysisError('C08.R3: %s lost its delay structure'
                                 % fpol.qname)
